@@ -47,7 +47,7 @@ def kinds(ctx: Ctx, rule="R-C08-KINDS") -> None:
         it = it[0]
         start = [y for y, k in g.succ[it.id] if k == "T"][0]
         for kind in KINDS5:
-            r = flow.reach_under(g, _loop_env(kind, False, None), flow.NORMAL_KINDS + ("raise",), start=start)
+            r = flow.reach_under(g, _loop_env(kind, False, None, scope=f), flow.NORMAL_KINDS + ("raise",), start=start)
             effects = [g.nodes[i] for i in r if (g.nodes[i].kind == "store" and (g.nodes[i].target or "").startswith("self."))
                        or (g.nodes[i].kind == "call" and (g.nodes[i].callee or "").startswith("self.") and (g.nodes[i].callee or "").endswith(".append"))
                        or g.nodes[i].kind == "raise"]
@@ -56,7 +56,7 @@ def kinds(ctx: Ctx, rule="R-C08-KINDS") -> None:
                       f"{f.short()} silently ignores parameters of kind {kind}: payload entries for them are dropped (or they are called without a value)",
                       instance=f"{f.short()}[{kind}]")
         # dependency parameters stay out of the payload tables
-        r = flow.reach_under(g, _loop_env("KEYWORD_ONLY", True, None), flow.NORMAL_KINDS + ("raise",), start=start)
+        r = flow.reach_under(g, _loop_env("KEYWORD_ONLY", True, None, scope=f), flow.NORMAL_KINDS + ("raise",), start=start)
         pay = [g.nodes[i] for i in r if (g.nodes[i].kind == "store" and (g.nodes[i].target or "").startswith(("self.kwargs[", "self.args[")))
                or (g.nodes[i].kind == "call" and (g.nodes[i].callee or "") in ("self.kwargs.append", "self.args.append"))]
         dep = [g.nodes[i] for i in r if g.nodes[i].kind == "store" and "dependency_kwargs" in (g.nodes[i].target or "")]
@@ -74,24 +74,29 @@ def _comp_of(f: FuncInfo, name: str):
 def sentinel_and_align(ctx: Ctx) -> None:
     f = ctx.func(f"{BASIC}.convert_inputs")
     g = ctx.cfg(f)
-    acomp = _comp_of(f, "args")
-    kcomp = _comp_of(f, "kwargs")
-    ctx.require(acomp is not None and kcomp is not None, f"{f.qualname}: comprehensions building args / kwargs not found")
-    ga = acomp.generators[0]
-    ok = len(acomp.generators) == 1 and dotted(ga.iter) == "self.args" and not ga.ifs
-    ctx.check(ok, "R-C08-ALIGN", f, "args = [... for name in self.args] (unfiltered)", "one value per positional-only parameter, in declaration order",
-              f"BasicConverter builds the positional arguments with `{unparse(acomp)[:90]}`: skipping a positional-only parameter that is absent from the payload "
-              "shifts every later value one slot to the left (the actor runs with made-up bindings)", node=acomp, instance="basic: positional alignment")
-    pops = [c for c in ast.walk(acomp) if isinstance(c, ast.Call) and dotted(c.func) == "loaded.pop"]
-    ok = len(pops) == 1 and isinstance(pops[0].args[0], ast.Name) and pops[0].args[0].id == ga.target.id and len(pops[0].args) == 2 \
+    ab = C.collection_build(f, "args")
+    kb = C.collection_build(f, "kwargs")
+    ctx.require(ab is not None and kb is not None, f"{f.qualname}: construction of args / kwargs (comprehension or loop) not found")
+    _, a_t, a_it, a_elt, a_ifs = ab
+    ok = dotted(a_it) == "self.args" and not a_ifs and isinstance(a_t, ast.Name)
+    ctx.check(ok, "R-C08-ALIGN", f, "args built with one value per name in self.args (unfiltered)", "one value per positional-only parameter, in declaration order",
+              f"BasicConverter builds the positional arguments over `{unparse(a_it)}`{' under ' + unparse(a_ifs[0]) if a_ifs else ''}: skipping a positional-only parameter that is absent from "
+              "the payload shifts every later value one slot to the left (the actor runs with made-up bindings)", node=a_elt if isinstance(a_elt, ast.AST) else None, instance="basic: positional alignment")
+    pops = [c for c in ast.walk(a_elt) if isinstance(c, ast.Call) and dotted(c.func) == "loaded.pop"] if isinstance(a_elt, ast.AST) else []
+    ok = len(pops) == 1 and isinstance(pops[0].args[0], ast.Name) and isinstance(a_t, ast.Name) and pops[0].args[0].id == a_t.id and len(pops[0].args) == 2 \
         and isinstance(pops[0].args[1], ast.Subscript) and dotted(pops[0].args[1].value) == "self.args"
     ctx.check(ok, "R-C08-ALIGN", f, "positional value = payload entry of its name, else its default", "loaded.pop(name, self.args[name])",
-              f"BasicConverter positional value is {unparse(acomp.elt)[:60]}", node=acomp, instance="basic: positional value")
-    gk = kcomp.generators[0]
-    kpops = [c for c in ast.walk(kcomp) if isinstance(c, ast.Call) and dotted(c.func) == "loaded.pop"]
-    ok = dotted(gk.iter) == "self.kwargs" and len(kpops) == 1 and dotted(kcomp.key) == gk.target.id and isinstance(kpops[0].args[0], ast.Name) and kpops[0].args[0].id == gk.target.id
+              f"BasicConverter positional value is {unparse(a_elt)[:60] if isinstance(a_elt, ast.AST) else a_elt}", instance="basic: positional value")
+    _, k_t, k_it, k_elt, k_ifs = kb
+    k_key, k_val = k_elt if isinstance(k_elt, tuple) else (None, None)
+    kpops = [c for c in ast.walk(k_val) if isinstance(c, ast.Call) and dotted(c.func) == "loaded.pop"] if k_val is not None else []
+    ok = dotted(k_it) == "self.kwargs" and len(kpops) == 1 and isinstance(k_t, ast.Name) and dotted(k_key) == k_t.id and isinstance(kpops[0].args[0], ast.Name) and kpops[0].args[0].id == k_t.id
     ctx.check(ok, "R-C08-ALIGN", f, "kwargs = {name: payload entry or default for name in self.kwargs}", "each keyword parameter bound by its own name",
-              f"BasicConverter keyword arguments are built as {unparse(kcomp)[:90]}", node=kcomp, instance="basic: keyword binding")
+              f"BasicConverter keyword arguments are built over {unparse(k_it)} as {unparse(k_val)[:60] if k_val is not None else '?'}", instance="basic: keyword binding")
+
+    class _G:  # keeps the names used below
+        ifs = k_ifs
+    gk = _G
     kw_filtered = bool(gk.ifs)
     # sentinel check
     tests = [t for t in g.nodes if t.kind == "test" and any(isinstance(c, ast.Compare) and isinstance(c.ops[0], (ast.Is, ast.IsNot, ast.Eq)) and
@@ -123,7 +128,11 @@ def sentinel_and_align(ctx: Ctx) -> None:
               f"runs the actor with a made-up value (sentinel test covers {sorted(covered) or 'nothing'}, needed {sorted(need)})", instance="basic: sentinel sanitised")
     # extras only to catch-alls
     upd = [n for n in g.calls() if (n.callee or "") == "kwargs.update"]
+    upd += [n for n in g.nodes if n.kind == "iter" and isinstance(n.ast, ast.For) and unparse(n.ast.iter) in ("loaded.items()", "loaded")
+            and any(isinstance(x, ast.Assign) and isinstance(x.targets[0], ast.Subscript) and dotted(x.targets[0].value) == "kwargs" for x in ast.walk(n.ast))]
     ext = [n for n in g.calls() if (n.callee or "") == "args.extend"]
+    ext += [n for n in g.nodes if n.kind == "iter" and isinstance(n.ast, ast.For) and unparse(n.ast.iter) in ("loaded.values()",)
+            and any(isinstance(x, ast.Call) and dotted(x.func) == "args.append" for x in ast.walk(n.ast))]
 
     def flags(all_kwargs, all_args):
         def fn(text, node):
